@@ -34,10 +34,10 @@ PROPS = {
             "condition is absent or true, appends once per row, evaluates every target on that row (R-ROWLOOP, 4 "
             "gate cases executed abstractly); FROM expression AND-ed with WHERE (R-FROMAND, 4 cases). Does not "
             "decide the numeric value of an operator application, regular-expression results or overload "
-            "resolution for nested expressions. The constant a cell computes with is the parameter written at that place: positional placeholders bind in textual order whatever the order clauses are compiled in (R-PLACEHOLDER). R-DIVGUARD and the operator terms of R-OPSEM are decided by interpreting each implementation on terms with a zero and a non-zero divisor: no division by the second operand is evaluated before the zero test, the zero case returns NULL, the other case returns the operation of the operator's name. AND / OR / COALESCE are interpreted on terms for every operand list of length 1-3 over NULL, FALSE, TRUE, zero/empty and other values: the value is that of the truth table (NULL, FALSE or TRUE for AND / OR), operands are evaluated once, left to right, and evaluation stops where the statement says it stops (R-3VL). No evaluator writes state that outlives the row (write census, R-SHARED): a cell is computed from its row alone. R-NULLSTRICT is decided on terms: every NULL / non-NULL operand assignment of every NULL-propagating evaluator class (and every outcome of the comparisons between non-NULL values); a NULL reaches neither the operation nor an ordering comparison nor arithmetic. The function-call evaluator recognises NULL operands by identity (R-EVALALL). AND, OR, literals, `*` and column names compile to the node of that meaning over all their arguments in source order (R-NODEBUILD, handlers interpreted on terms). The scalar functions a cell is computed with are the recorded definitions (R-DEFN, see C18)."),
+            "resolution for nested expressions. The constant a cell computes with is the parameter written at that place: positional placeholders bind in textual order whatever the order clauses are compiled in (R-PLACEHOLDER). R-DIVGUARD and the operator terms of R-OPSEM are decided by interpreting each implementation on terms with a zero and a non-zero divisor: no division by the second operand is evaluated before the zero test, the zero case returns NULL, the other case returns the operation of the operator's name. AND / OR / COALESCE are interpreted on terms for every operand list of length 1-3 over NULL, FALSE, TRUE, zero/empty and other values: the value is that of the truth table (NULL, FALSE or TRUE for AND / OR), operands are evaluated once, left to right, and evaluation stops where the statement says it stops (R-3VL). No evaluator writes state that outlives the row (write census, R-SHARED): a cell is computed from its row alone. R-NULLSTRICT is decided on terms: every NULL / non-NULL operand assignment of every NULL-propagating evaluator class (and every outcome of the comparisons between non-NULL values); a NULL reaches neither the operation nor an ordering comparison nor arithmetic. The function-call evaluator recognises NULL operands by identity (R-EVALALL). AND, OR, literals, `*` and column names compile to the node of that meaning over all their arguments in source order (R-NODEBUILD, handlers interpreted on terms). The scalar functions a cell is computed with are the recorded definitions (R-DEFN, see C18). The source tables hand the scan one row per directive resp. posting, and the null table `#` exactly one NULL row (R-ROWGEN)."),
         'assumptions': TRUSTED_STRUCT + TRUSTED_ABSINT[3:],
         'quick': [sxev.rule_nullstrict, evalnodes.rule_divguard, evalnodes.rule_promote, evalnodes.rule_opsem,
-                  sxev.rule_3vl, sx.rule_rowloop, sxk.rule_fromand, sxk.rule_implicitcast, gr.rule_precmatrix, sxst.rule_placeholder, st.rule_shared, sxev.rule_evalall, sxk.rule_nodebuild, sxl.rule_defn],
+                  sxev.rule_3vl, sx.rule_rowloop, sxk.rule_fromand, sxk.rule_implicitcast, gr.rule_precmatrix, sxst.rule_placeholder, st.rule_shared, sxev.rule_evalall, sxk.rule_nodebuild, sxl.rule_defn, sxt.rule_rowgen],
         'thorough': [],
     },
     'C02': {
@@ -180,13 +180,13 @@ PROPS = {
             "connection (R-SHARED). Constant folding only behind all-constant operands and, for functions, behind "
             "purity, with purity = neither row nor context passed and no global/clock reads (R-FOLDPURE); positional "
             "placeholders numbered in textual order and read back from where the numbering is kept (R-PLACEHOLDER). "
-            "Does not decide value equality of folded and unfolded evaluation. The census also follows: fields that hold connection objects, locals aliasing objects kept on self, results of `_compile` (which can be the table's own column objects), subscript reads of defaultdict fields of connection objects (a missing key is inserted), one-shot iterators stored on connection objects. The handlers of AND, OR, literals, `*` and column names build their node from the compiled arguments without evaluating anything (R-NODEBUILD): the only places where a constant expression is computed at compile time are the fold sites R-FOLDPURE decides, so a folded value and the per-row value cannot come from two different implementations of AND / OR. Every node of a statement is visited by ast.walk - fields, lists, nested lists, subqueries - exactly once, so every placeholder is counted and bound (R-WALK); a FROM subquery is compiled by the compiler of the enclosing statement, with its parameters and numbering (R-FROMCLAUSE); attaching a ledger leaves the caller's entries as they were (R-ATTACH)."),
+            "Does not decide value equality of folded and unfolded evaluation. The census also follows: fields that hold connection objects, locals aliasing objects kept on self, results of `_compile` (which can be the table's own column objects), subscript reads of defaultdict fields of connection objects (a missing key is inserted), one-shot iterators stored on connection objects. The handlers of AND, OR, literals, `*` and column names build their node from the compiled arguments without evaluating anything (R-NODEBUILD): the only places where a constant expression is computed at compile time are the fold sites R-FOLDPURE decides, so a folded value and the per-row value cannot come from two different implementations of AND / OR. Every node of a statement is visited by ast.walk - fields, lists, nested lists, subqueries - exactly once, so every placeholder is counted and bound (R-WALK); a FROM subquery is compiled by the compiler of the enclosing statement, with its parameters and numbering (R-FROMCLAUSE); attaching a ledger leaves the caller's entries as they were (R-ATTACH). Every compilation runs on a new Compiler for the connection at hand (R-COMPILEFN)."),
         'assumptions': TRUSTED_STRUCT + [
             "receiver lifetimes: instances of a class are IMPORT/CONNECTION/EXECUTION objects according to where the class is "
             "instantiated; attributes named entries/options/entry/posting/postings/meta/price_map hold caller-owned ledger data; "
             "parameters named node/query/statement/... in the compiler and cursor are caller-owned",
             "TatSu, beancount and dateutil internals perform no shared writes (summarised, not analysed)"],
-        'quick': [st.rule_inputmut, st.rule_shared, st.rule_foldpure, sxst.rule_placeholder, sxk.rule_nodebuild, sxst.rule_walk, sxk.rule_fromclause, sxt.rule_attach],
+        'quick': [st.rule_inputmut, st.rule_shared, st.rule_foldpure, sxst.rule_placeholder, sxk.rule_nodebuild, sxst.rule_walk, sxk.rule_fromclause, sxt.rule_attach, sxst.rule_compilefn],
         'thorough': [],
     },
     'C10': {
@@ -270,12 +270,12 @@ PROPS = {
             "must be empty (R-SHARED); FROM-clause qualifiers are applied to a copy of the table (R-TABLECOPY); the "
             "balance guard lives in the per-scan row context (R-ONCEPERROW); threadsafety is a valid DB-API level "
             "(R-MODCONST). With nothing shared no interleaving needs exploring. Sharing a cursor between threads is "
-            "outside DB-API level 2 and outside the claim. The census follows locals that alias an object kept on self (a row context created once per connection-owned table and rewound per scan is shared by concurrent scans). parse() runs the statement through a parser object made in that call (R-PARSEFRESH). The census also covers process-wide state reached through the standard library: objects handed out by decimal.getcontext() and the like, calls whose purpose is to change process state (decimal.setcontext, locale.setlocale ...), and stores a module body makes at import into objects of other libraries (decimal.DefaultContext.prec = ...), which take effect per thread. Every connection owns its tables, options and errors (R-CONNECTION: new objects made in __init__, no default-argument or class-level objects); attach() does not change the ledger it is given - the list is shared with every other connection made from it (R-ATTACH attach:input); a mutable default argument that is stored or changed is shared state (census)."),
+            "outside DB-API level 2 and outside the claim. The census follows locals that alias an object kept on self (a row context created once per connection-owned table and rewound per scan is shared by concurrent scans). parse() runs the statement through a parser object made in that call (R-PARSEFRESH). The census also covers process-wide state reached through the standard library: objects handed out by decimal.getcontext() and the like, calls whose purpose is to change process state (decimal.setcontext, locale.setlocale ...), and stores a module body makes at import into objects of other libraries (decimal.DefaultContext.prec = ...), which take effect per thread. Every connection owns its tables, options and errors (R-CONNECTION: new objects made in __init__, no default-argument or class-level objects); attach() does not change the ledger it is given - the list is shared with every other connection made from it (R-ATTACH attach:input); a mutable default argument that is stored or changed is shared state (census). compile() makes a Compiler of its own for every call (R-COMPILEFN): the current table, the parameters and the placeholder numbering of one statement are never visible to another."),
         'assumptions': TRUSTED_STRUCT + [
             "the call graph is over-approximated: every function of the non-front-end modules that is not import-only is "
             "treated as execution-reachable",
             "TatSu, beancount and dateutil internals perform no shared writes (summarised, not analysed)"],
-        'quick': [st.rule_shared, sxst.rule_tablecopy, sxst.rule_onceperrow, cu.rule_modconst, sxc.rule_freshcursor, st.rule_parsefresh, sxc.rule_connection, sxt.rule_attach],
+        'quick': [st.rule_shared, sxst.rule_tablecopy, sxst.rule_onceperrow, cu.rule_modconst, sxc.rule_freshcursor, st.rule_parsefresh, sxc.rule_connection, sxt.rule_attach, sxst.rule_compilefn],
         'thorough': [],
     },
     'C11': {
